@@ -120,17 +120,49 @@ def check_chain_argspec(rep, rule):
     if not ok:
         return
     prov_var = prov_vars[0]
-    # loop header
-    hdr_ok = isinstance(loop.iter, ast.Call) and call_name(loop.iter) == 'zip' and \
-        [norm(a) for a in loop.iter.args] == [ps[0], ps[1]] and isinstance(loop.target, ast.Tuple) and len(loop.target.elts) == 2
+    # loop header: every (function, its provides) pair, outermost first -- zip(funcs, provides), or an index loop
+    itx = loop.iter
+    while isinstance(itx, ast.Call) and call_name(itx) in ('list', 'tuple', 'iter') and len(itx.args) == 1:
+        itx = itx.args[0]
+    fvar = pvar = None
+    loop_body = list(loop.body)
+    hdr_known = True
+    if isinstance(itx, ast.Call) and call_name(itx) == 'zip' and isinstance(loop.target, ast.Tuple) and len(loop.target.elts) == 2:
+        if [norm(a) for a in itx.args] == [ps[0], ps[1]]:
+            fvar, pvar = [norm(x) for x in loop.target.elts]
+    else:
+        def pick(lst, idx):
+            """The body statement ``v = <lst>[<idx>]`` -> (v, statement)."""
+            for b in loop_body:
+                if isinstance(b, ast.Assign) and len(b.targets) == 1 and isinstance(b.targets[0], ast.Name) and \
+                        isinstance(b.value, ast.Subscript) and norm(b.value.value) == lst and norm(b.value.slice) == idx:
+                    return b.targets[0].id, b
+            return None, None
+        if isinstance(itx, ast.Call) and call_name(itx) == 'enumerate' and len(itx.args) == 1 and norm(itx.args[0]) == ps[0] and \
+                isinstance(loop.target, ast.Tuple) and len(loop.target.elts) == 2 and all(isinstance(x, ast.Name) for x in loop.target.elts):
+            idx, fvar = [x.id for x in loop.target.elts]
+            pvar, pst = pick(ps[1], idx)
+            loop_body = [b for b in loop_body if b is not pst]
+        elif isinstance(itx, ast.Call) and call_name(itx) == 'range' and len(itx.args) == 1 and norm(itx.args[0]) == 'len(%s)' % ps[0] and \
+                isinstance(loop.target, ast.Name):
+            idx = loop.target.id
+            fvar, fst = pick(ps[0], idx)
+            pvar, pst = pick(ps[1], idx)
+            loop_body = [b for b in loop_body if b is not fst and b is not pst]
+        else:
+            hdr_known = False
+        if hdr_known and any(isinstance(n, ast.Name) and n.id == idx for b in loop_body for n in ast.walk(b)):
+            fvar = pvar = None       # the index is used for something else as well
+    if not hdr_known:
+        raise AnalysisError('chain_argspec: loop header %s not recognised as a walk over (function, provides) pairs' % short(loop.iter))
+    hdr_ok = fvar is not None and pvar is not None
     rep.check(rule, fkey(fi, 'loop header'), hdr_ok, 'iterates zip(%s, %s) in order' % (ps[0], ps[1]) if hdr_ok else
               'loop does not iterate zip(%s, %s): %s' % (ps[0], ps[1], short(loop.iter)), sinter, loop)
     if not hdr_ok:
         return
-    fvar, pvar = [norm(x) for x in loop.target.elts]
     it = SetInterp(uni, env={req_var: uni['R'], opt_var: uni['O'], prov_var: uni['P'], pvar: uni['p'],
                              fvar: Opaque(None, 'func')}, elems={ps[2]: uni['INNER']}, model=_sig_model(uni))
-    it.exec_block(loop.body)
+    it.exec_block(loop_body)
     U = uni['NAMES'] & uni.neg(uni['DEFAULTS'])
     D = uni['NAMES'] & uni['DEFAULTS']
     spec = {req_var: (uni['R'] | (U & uni.neg(uni['P'])), "R' = R | (undefaulted - P)  [only providers *before* the function count]"),
@@ -376,6 +408,8 @@ def check_phase_sets(rep, rule, rule_pair=None, rule_order=None, rule_core_env=N
             comp_of_phase.setdefault(('provs', PROVS_PHASE.get(d['prov'])), d)
 
     def model(it, e):
+        if isinstance(e, (ast.SetComp, ast.ListComp, ast.GeneratorExp)):
+            return flatten_comp(it, e)
         if isinstance(e, ast.Call):
             cn = call_name(e)
             if cn == 'zip' and len(e.args) == 1 and isinstance(e.args[0], ast.Starred) and not e.keywords:
@@ -413,6 +447,10 @@ def check_phase_sets(rep, rule, rule_pair=None, rule_order=None, rule_core_env=N
             if cn == 'get_arg_names':
                 return Opaque(e, 'names')
             # flatten of a provides list:  set(chain.from_iterable(X)) / set(itertools.chain(*X))
+            if cn in ('set', 'frozenset') and e.args and isinstance(e.args[0], (ast.ListComp, ast.GeneratorExp, ast.SetComp)):
+                r = flatten_comp(it, e.args[0])
+                if r is not None:
+                    return r
             if cn in ('set', 'frozenset') and e.args:
                 for n in ast.walk(e.args[0]):
                     if isinstance(n, ast.Name):
@@ -421,6 +459,93 @@ def check_phase_sets(rep, rule, rule_pair=None, rule_order=None, rule_core_env=N
                             note(pv[2], 'provs', pv[1])
                             return uni[provs_atom[pv[1]]]
         return None
+
+    def flatten_comp(it, e):
+        """``{name for provides in X for name in provides}`` over a provides list X -> its atom."""
+        if len(e.generators) == 2 and all(isinstance(g.target, ast.Name) and not g.ifs for g in e.generators) and \
+                isinstance(e.generators[1].iter, ast.Name) and e.generators[1].iter.id == e.generators[0].target.id and \
+                isinstance(e.elt, ast.Name) and e.elt.id == e.generators[1].target.id:
+            pv = phase_val(it.try_eval(e.generators[0].iter))
+            if pv is not None and pv[0] == 'provs' and pv[1] in provs_atom:
+                note(pv[2], 'provs', pv[1])
+                return uni[provs_atom[pv[1]]]
+        return None
+
+    def model_comp(it, e):
+        if isinstance(e, (ast.SetComp, ast.ListComp, ast.GeneratorExp)):
+            return flatten_comp(it, e)
+        return None
+
+    def empty_list_local(name):
+        """``name`` is bound exactly once in the function, to an empty list (possibly in ``a, b = [], []``)."""
+        b = assigned_value(fi.node, name)
+        if len(b) != 1:
+            return False
+        st_, v, idx = b[0]
+        if idx is not None and isinstance(v, (ast.Tuple, ast.List)) and isinstance(idx, int) and idx < len(v.elts):
+            v = v.elts[idx]
+        elif idx is not None:
+            return False
+        return (isinstance(v, ast.List) and not v.elts) or (isinstance(v, ast.Call) and call_name(v) == 'list' and not v.args)
+
+    def for_model(it, st):
+        """Loop forms: (1) ``for mw in middlewares: if mw.request: funcs.append(mw.request); provs.append(mw.provides)``
+        builds phase lists; (2) ``for p in req_provides: names.update(p)`` flattens a provides list."""
+        if not isinstance(st.target, ast.Name) or st.orelse:
+            return False
+        var = st.target.id
+        pv = phase_val(it.try_eval(st.iter))
+        if pv is not None and pv[0] == 'provs' and pv[1] in provs_atom:
+            if len(st.body) == 1:
+                b = st.body[0]
+                tgt = arg = None
+                if isinstance(b, ast.Expr) and isinstance(b.value, ast.Call) and isinstance(b.value.func, ast.Attribute) and \
+                        b.value.func.attr == 'update' and isinstance(b.value.func.value, ast.Name) and len(b.value.args) == 1:
+                    tgt, arg = b.value.func.value.id, b.value.args[0]
+                elif isinstance(b, ast.AugAssign) and isinstance(b.op, ast.BitOr) and isinstance(b.target, ast.Name):
+                    tgt, arg = b.target.id, b.value
+                while isinstance(arg, ast.Call) and call_name(arg) in ('set', 'frozenset', 'list', 'tuple') and len(arg.args) == 1:
+                    arg = arg.args[0]
+                cur = it.env.raw(tgt) if tgt is not None else None
+                if isinstance(arg, ast.Name) and arg.id == var and hasattr(cur, 'm'):
+                    note(pv[2], 'provs', pv[1])
+                    cur.m |= uni[provs_atom[pv[1]]]        # in place: every alias of the set sees it
+                    return True
+            raise Unmodelled('loop over the %s provides list does more than collect its names' % pv[1])
+        if norm(st.iter) != ps[0] and not (isinstance(st.iter, ast.Call) and call_name(st.iter) in ('list', 'tuple', 'iter') and
+                                           len(st.iter.args) == 1 and norm(st.iter.args[0]) == ps[0]):
+            return False
+        found = []
+
+        def walk(body, cs):
+            for b in body:
+                if isinstance(b, ast.If):
+                    t, pol = _strip_not(b.test)
+                    walk(b.body, cs + [(t, pol)])
+                    walk(b.orelse, cs + [(t, not pol)])
+                elif isinstance(b, ast.Expr) and isinstance(b.value, ast.Call) and isinstance(b.value.func, ast.Attribute) and \
+                        b.value.func.attr == 'append' and isinstance(b.value.func.value, ast.Name) and len(b.value.args) == 1:
+                    found.append((b.value.func.value.id, b.value.args[0], cs, b))
+                elif isinstance(b, ast.Pass):
+                    continue
+                else:
+                    raise Unmodelled('statement %s in the loop over the middlewares' % norm(b)[:60])
+        walk(st.body, [])
+        if not found:
+            return False
+        for lname, val, cs, b in found:
+            fake = ast.copy_location(ast.ListComp(elt=val, generators=[ast.comprehension(
+                target=ast.Name(id=var, ctx=ast.Store()), iter=st.iter, ifs=[t if pol else ast.UnaryOp(op=ast.Not(), operand=t) for t, pol in cs],
+                is_async=0)]), b)
+            d = _phase_comp(fake)
+            if d is None or not empty_list_local(lname) or sum(1 for f in found if f[0] == lname) != 1:
+                raise Unmodelled('list %s built in the loop over the middlewares is not a phase list' % lname)
+            d['node'] = st
+            d['fake'] = fake
+            comps[id(fake)] = d
+            phase = d['func'] if d['func'] is not None else PROVS_PHASE.get(d['prov'])
+            it.env[lname] = Opaque(fake, (d['kind'], phase, id(fake)))
+        return True
 
     def if_model(it, st):
         """``if not sigs: funcs = (); provs = () / else: funcs, provs = zip(*sigs)``: the empty branch is the non-empty
@@ -454,6 +579,7 @@ def check_phase_sets(rep, rule, rule_pair=None, rule_order=None, rule_core_env=N
         return True
     it = SetInterp(uni, env={ps[3]: uni['PRE']}, elems={"'next'": uni['NEXT'], "'context'": uni['CTX']}, model=model)
     it.if_model = if_model
+    it.for_model = for_model
     it.fold = lambda e: repo.try_fold(e, core)
     for p in ps[:3]:
         it.env[p] = Opaque(None, p)
@@ -715,6 +841,10 @@ def check_generated_level(rep, r_kw, r_decl, r_tail, r_index, r_rec):
     ok = any(_implies_empty(t, p, ps[0]) for t, p in cs)
     rep.check(r_rec, key('stopping case'), ok, "returns '' exactly when no functions are left" if ok else
               'the empty-string return is not guarded by "not %s"' % ps[0], sinter, stop)
+    opaque = [p_ for p_ in codegen.flatten_syms(parts) if p_.kind == 'expr']
+    if opaque:
+        raise AnalysisError('build_chain_str: the level template has parts the evaluator cannot follow: %s'
+                            % [norm(p_.expr)[:60] for p_ in opaque[:3]])
     trees = {}
     for level in (0, 2):
         try:
@@ -811,9 +941,10 @@ def check_generated_level(rep, r_kw, r_decl, r_tail, r_index, r_rec):
               'params_sofar is not updated with %s[0] (and nothing else) before filtering the call arguments' % ps[1], sinter,
               evs[i_upd[0]]['node'] if i_upd else fi.node)
     init = te.inits.get(scope)
+    upd_stmts = [e.get('stmt') for e in evs if e['kind'] == 'update' and e['target'] == scope]
     rebound = [s_ for s_ in stmts_of(fi.node) if isinstance(s_, (ast.Assign, ast.AugAssign)) and
                any(norm(t) == scope for t in (s_.targets if isinstance(s_, ast.Assign) else [s_.target]))
-               and not (init is not None and any(s_ is x for x in ast.walk(init[0])))]
+               and not (init is not None and any(s_ is x for x in ast.walk(init[0]))) and not any(s_ is u for u in upd_stmts)]
     ok = init is not None and norm(init[1]) in ('set([%s])' % ps[2], '{%s}' % ps[2], 'set((%s,))' % ps[2], 'set({%s})' % ps[2]) and not rebound
     rep.check(r_rec, key('params_sofar initial'), ok, 'params_sofar starts as {inner_name}' if ok else
               'params_sofar does not start as {%s}' % ps[2], sinter, init[0] if init else fi.node)
